@@ -79,6 +79,63 @@ MUTS = [
  ('M32 categorical sensors aligned with the dump START times', 'katdal/sensordata.py',
   "sensor_data = sensor_to_categorical(sensor_data.timestamp, sensor_data.value,\n                                                timestamps, dump_period, **props)",
   "sensor_data = sensor_to_categorical(sensor_data.timestamp, sensor_data.value,\n                                                timestamps - 0.5 * dump_period, dump_period, **props)"),
+
+ # ---- round 3: v4 data sets opened with a preselection: data, freqs and timestamps name the same STORED coordinates
+ #      (seeded C01-5 and its neighbourhood)
+ ('M33 seeded C01-5: SpectralWindow.subrange merges the two floor divisions', 'PATCH', '/verif/seeded/C01-5/patch.diff', ''),
+ ('M34 subrange: centre channel of the sub-range rounded up', 'katdal/spectral_window.py',
+  "channel_shift = (first + last) // 2 - self.num_chans // 2", "channel_shift = (first + last + 1) // 2 - self.num_chans // 2"),
+ ('M35 subrange: shift from the centre of the sub-range length', 'katdal/spectral_window.py',
+  "channel_shift = (first + last) // 2 - self.num_chans // 2", "channel_shift = first + (last - first) // 2 - (self.num_chans - 1) // 2"),
+ ('M36 v4: preselected channel range not normalised (negative stop taken literally)', 'katdal/visdatav4.py',
+  "            start, stop, stride = preselect['channels'].indices(num_chans)\n            assert stride == 1    # Checked by TelstateDataSource\n",
+  "            start = preselect['channels'].start or 0\n            stop = preselect['channels'].stop or num_chans\n            if start < 0:\n                start += num_chans\n"),
+ ('M37 datasource: timestamps of a dump preselection start at the first dump of the capture', 'katdal/datasources.py',
+  "            timestamps = timestamps[preselect['dumps']]", "            timestamps = timestamps[:len(timestamps[preselect['dumps']])]"),
+ ('M38 datasource: chunk store sliced one channel late', 'katdal/datasources.py',
+  "                index = (preselect.get('dumps', np.s_[:]), preselect.get('channels', np.s_[:]))",
+  "                index = (preselect.get('dumps', np.s_[:]), preselect.get('channels', np.s_[:]))\n                if index[1].start:\n                    index = (index[0], slice(index[1].start + 1, index[1].stop + 1 if index[1].stop and index[1].stop > 0 and index[1].stop < chunk_info['correlator_data']['shape'][1] else index[1].stop))"),
+ ('M39 v4: spectral window of a channel preselection keeps the centre frequency of the whole band', 'katdal/visdatav4.py',
+  "            spw = spw.subrange(start, stop)", "            spw = SpectralWindow(centre_freq, channel_width, stop - start, product, sideband, band_map[band])"),
+ ('M40 SpectralWindow.channel_freqs: centre channel of an even window one too low', 'katdal/spectral_window.py',
+  "np.arange(self.num_chans) - self.num_chans // 2) / self.num_chans", "np.arange(self.num_chans) - (self.num_chans - 1) // 2) / self.num_chans"),
+ ('M41 v4: time_offset applied to the data timestamps twice when dumps are preselected', 'katdal/visdatav4.py',
+  "        source.timestamps += self.time_offset\n", "        source.timestamps += self.time_offset * (2 if getattr(source, 'capture_start', None) is not None and source.capture_start != source.timestamps[0] else 1)\n"),
+ # ---- extension round: the frequency axis of the HDF5 readers against the stored attributes
+ ('M42 v1: spectral window built with the upper sideband', 'katdal/h5datav1.py',
+  "SpectralWindow(centre_freq, channel_width, num_chans, 'poco')", "SpectralWindow(centre_freq, channel_width, num_chans, 'poco', 1)"),
+ ('M43 SpectralWindow: default sideband +1', 'katdal/spectral_window.py',
+  "sideband=-1, band='L', bandwidth=None):", "sideband=1, band='L', bandwidth=None):"),
+ ('M44 v2 (old files): LO offset 4000 MHz', 'katdal/h5datav2.py', "freq - 4200e6 for freq", "freq - 4000e6 for freq"),
+ ('M45 v2: version test excludes 2.1 files from the calculated centre-frequency sensor', 'katdal/h5datav2.py',
+  "if self.version >= '2.1':\n            centre_freq", "if self.version > '2.1':\n            centre_freq"),
+ ('M46 v3 fake UHF: spectrum not flipped', 'katdal/h5datav3.py',
+  "            spw_params['centre_freq'] = 428e6\n            spw_params['sideband'] = -1\n", "            spw_params['centre_freq'] = 428e6\n"),
+ ('M47 v3: centre_freq argument applied BEFORE the L0 attribute', 'katdal/h5datav3.py',
+  "        if l0_centre_freq is not None:\n            spw_params['centre_freq'] = l0_centre_freq\n",
+  "        if l0_centre_freq is not None and not centre_freq:\n            spw_params['centre_freq'] = l0_centre_freq\n        if l0_centre_freq is not None and centre_freq:\n            centre_freq = l0_centre_freq\n"),
+ ('M48 v3: UHF band centred on 815 MHz', 'katdal/h5datav3.py', "centre_freq=816e6", "centre_freq=815e6"),
+ ('M49 v3: CBF bandwidth bug no longer worked around', 'katdal/h5datav3.py', "if bandwidth == 857152196.0:", "if bandwidth == 857152197.0:"),
+ ('M50 v2: channel width from one channel too few', 'katdal/h5datav2.py', "channel_width = bandwidth / num_chans", "channel_width = bandwidth / (num_chans - 1)"),
+ ('M51 v3: vis conjugated for the upper sideband too when the band is UHF', 'katdal/h5datav3.py',
+  "if self.spectral_windows[self.spw].sideband == 1:", "if self.spectral_windows[self.spw].sideband == 1 and self.spectral_windows[self.spw].band != 'UHF':"),
+ # ---- extension round: dimensionality of answers, keepdims
+ ('M52 v3 keepdims: scalar axes are not re-inserted', 'katdal/h5datav3.py',
+  "keep_singles = [(np.newaxis if np.isscalar(dim_keep) else slice(None))\n                            for dim_keep in keep]\n            return data[tuple(keep_singles)]\n        force_full_dim",
+  "keep_singles = [slice(None) for dim_keep in keep if not np.isscalar(dim_keep)]\n            return data[tuple(keep_singles)]\n        force_full_dim"),
+ ('M53 v3: keepdims test inverted', 'katdal/h5datav3.py', "        if self._keepdims:\n            transforms.append(force_full_dim)", "        if not self._keepdims:\n            transforms.append(force_full_dim)"),
+ ('M54 v2: keepdims argument ignored', 'katdal/h5datav2.py', "self._keepdims = keepdims", "self._keepdims = False"),
+ ('M55 revert a3e00d5: flags combined with the one-element mask array', 'katdal/h5datav3.py',
+  "np.bitwise_and(flags_select[0], flags)", "np.bitwise_and(flags_select, flags)"),
+ ('M56 v2 keepdims: only the first two axes are guarded', 'katdal/h5datav2.py',
+  "keep = keep[:3] + (slice(None),) * (3 - len(keep))\n", "keep = keep[:2] + (slice(None),) * (2 - len(keep))\n"),
+ ('M57 v3 weights under keepdims: per-channel weights keep their singleton axes too', 'katdal/h5datav3.py',
+  "        weights_channel.transforms = []\n", "        pass\n"),
+ # ---- extension round: the product axis against the stored ordering
+ ('M58 v4: subarray built from the SORTED baseline ordering', 'katdal/visdatav4.py',
+  "self.subarrays = subs = [Subarray(ants, corrprods)]", "self.subarrays = subs = [Subarray(ants, sorted(tuple(cp) for cp in corrprods))]"),
+ ('M59 v3: subarray products listed with the two inputs swapped', 'katdal/h5datav3.py',
+  "self.subarrays = [Subarray(ants, corrprods)]", "self.subarrays = [Subarray(ants, [(b, a) for a, b in corrprods])]"),
 ]
 only = sys.argv[1:]
 res = []
